@@ -119,7 +119,7 @@ let () =
     match split_tab line with
     | [id; body] ->
       (match String.split_on_char '|' body with
-       | ("sq:text" | "sq:ctx" | "sq:api" | "sq:twice") :: _src :: a :: v :: binds ->
+       | ("sq:text" | "sq:ctx" | "sq:api" | "sq:twice" | "sq:rec") :: _src :: a :: v :: binds ->
          let a = tmpl_of_string a and v = value_of_string v in
          let rho = mk_rho (List.map parse_binding binds) in
          let model =
@@ -155,7 +155,7 @@ let () =
            else if is_splice a then "-"
            else (match subst rho a with Ok x -> show x | Err -> "ERR") in
          Printf.printf "%s\tE=%s H=%s\tE=%s H=%s\t%s\n" id model model spec spec (long_hash_splice rho a)
-       | "call" :: e :: _ ->
+       | ("call" | "hist") :: e :: _ ->
          Printf.printf "%s\t%s\t%s\t\n" id e e
        | _ -> failwith ("bad case: " ^ body))
     | _ -> failwith ("bad line: " ^ line))
